@@ -335,6 +335,8 @@ pub fn dispatch(mode: &str, f: &[Vec<u8>]) -> Option<R> {
             }
             Ok(vec![st.into_inner()])
         }
+        // the bytes PdfBuilder::build produces (compared byte for byte with the builder model, Storage/Builder.v)
+        "build_bytes" => build_bytes(f).map(|b| vec![b]),
         "build" => {
             let bytes = match build_bytes(f) { Ok(b) => b, Err(e) => return Some(Err(e)) };
             let mut out = vec![bytes.clone()];
